@@ -125,7 +125,7 @@ func init() {
 func c15Run(c *Ctx) {
 	K := 6
 	if c.Thorough() {
-		K = 7
+		K = 8
 	}
 	c.Bound("space", map[string]any{"prefix_items": c15Items, "max_prefix_items": K, "bad_tokens": c15Bad, "renderings": []string{"loose", "tight", "padded"}})
 	items := make([][]Tok, len(c15Items))
